@@ -76,6 +76,8 @@ func c15Login(tok string) string {
 		return "\nb" // starts with a line feed
 	case "TABNL":
 		return "\tq\nr" // starts with a tab and contains a line feed
+	case "MAC":
+		return "Ren\x8ee" // Mac Roman, as classic clients send it: not valid UTF-8
 	}
 	return tok
 }
@@ -541,6 +543,7 @@ func c15Alphabet(thorough bool) []string {
 	}
 	a = append(a, "new:LONG,p", "del:LONG", "set:LONG,q")
 	a = append(a, "new:LEADNL,p", "new:TABNL,p", "set:LEADNL,q", "del:TABNL", "batch:create,TABNL,p")
+	a = append(a, "new:MAC,p", "set:MAC,q", "del:MAC", "batch:create,MAC,p", "batch:rename,a,MAC", "batch:rename,MAC,a")
 	a = append(a, "new:a,W", "set:a,W", "set:a,V", "batch:modify,a,W", "batch:create,b,W")
 	a = append(a, "batch:rename,a,b", "batch:rename,b,a", "batch:rename,a,c d", "batch:rename,c d,a")
 	a = append(a,
